@@ -8,7 +8,10 @@ and with *semantic* fact dimensions chosen by the caller, so that `m.contains_ke
 `match m.get(k) { Some(..) .. None .. }` all establish the same fact, and a switch on a tuple `(a, b)` built in the
 function is a switch on a and on b (lib_c01.access_path projects through tuples built in the function).
 """
-from .lib import operand_local
+import re
+
+from .lib import PLUMBING, callee_allow, closure_args_of_call, operand_local
+from .lib_c01 import VALUE_PRESERVING, access_path, bool_switch_of_call, dead_ends, enum_switches, option_edges, resolve_path
 
 
 def discr_edge_sets(fn, sbb, info):
@@ -31,7 +34,8 @@ def region_states(fn, start, stops=(), switch_facts=None, atom_facts=None, kill=
 
     switch_facts : {switch_bb: [(dim, {successor bb: frozenset(values the dimension can have on this edge)})]}
                    successors not listed for a dimension are unconstrained.
-    atom_facts   : {call_bb: (dim, value when the call answers true, value when it answers false)} for bool-returning calls;
+    atom_facts   : {call_bb: (dim, value when the call answers true, value when it answers false)} for bool-returning calls, and
+                   {("cmp", bb, statement index): (dim, value when true, value when false)} for MIR comparisons;
                    the value is followed through copies, `!`, named flags, `a || b` / `a && b` lowering, `match flag`.
     kill         : {bb: [dims]} dimensions whose facts are forgotten when block bb is executed (a call that is the
                    subject of the dimension and may run again inside an inner loop).
@@ -68,7 +72,7 @@ def region_states(fn, start, stops=(), switch_facts=None, atom_facts=None, kill=
         blk = fn.blocks[bb]
         for d in kill.get(bb, ()):
             facts.pop(d, None)
-        for st in blk["st"]:
+        for si, st in enumerate(blk["st"]):
             if st["s"] != "assign":
                 continue
             l = st["pl"]["l"]
@@ -78,7 +82,12 @@ def region_states(fn, start, stops=(), switch_facts=None, atom_facts=None, kill=
                 continue
             rv = st["rv"]
             new = None
-            if rv["rv"] == "use":
+            if rv["rv"] == "binop" and ("cmp", bb, si) in atom_facts:
+                atom = ("cmp", bb, si)
+                for x in [x for x, v in vals.items() if v[0] == "a" and v[1] == atom]:
+                    del vals[x]
+                new = ("a", atom, False)
+            elif rv["rv"] == "use":
                 op = rv["op"]
                 if op.get("k") == "const" and op.get("ty") == "bool" and op.get("val") and "int" in op["val"]:
                     new = ("c", bool(op["val"]["int"]))
@@ -159,6 +168,78 @@ def region_states(fn, start, stops=(), switch_facts=None, atom_facts=None, kill=
     return results
 
 
+_ADD = ("Add", "AddWithOverflow", "AddUnchecked")
+_SUB = ("Sub", "SubWithOverflow", "SubUnchecked")
+_CMP = {"Eq": lambda x, y: x == y, "Ne": lambda x, y: x != y, "Lt": lambda x, y: x < y, "Le": lambda x, y: x <= y, "Gt": lambda x, y: x > y, "Ge": lambda x, y: x >= y}
+
+
+def linear_form(fn, op, transparent=()):
+    """An integer operand as `base + k`: follows copies and additions / subtractions of a constant (checked, wrapping-checked
+    or unchecked arithmetic alike) back to a value that is not such a sum.  Returns (access path of the base, k); a constant
+    is (None, value).  Generic (a candidate for lib.py)."""
+    k = 0
+    for _ in range(8):
+        p = access_path(fn, op, transparent)
+        if p.kind() == "const":
+            v = (p.root[2].get("val") or {}).get("int")
+            return (None, k + v) if v is not None and not p.path else (p, k)
+        if p.kind() == "local" and not p.calls and p.path in ([], ["0"]):
+            ds = fn.defs().get(p.root_local(), [])
+            if len(ds) == 1 and ds[0][1] == "assign" and not ds[0][2]["pl"]["p"] and ds[0][2]["rv"]["rv"] == "binop":
+                rv = ds[0][2]["rv"]
+                o = rv["op"]
+                if (o in _ADD or o in _SUB) and (p.path == ["0"]) == o.endswith("WithOverflow"):
+                    ca, cb = const_int_of(rv["a"]), const_int_of(rv["b"])
+                    if cb is not None:
+                        k += cb if o in _ADD else -cb
+                        op = rv["a"]
+                        continue
+                    if ca is not None and o in _ADD:
+                        k += ca
+                        op = rv["b"]
+                        continue
+        return p, k
+    return p, k
+
+
+def const_int_of(op):
+    if op.get("k") == "const" and op.get("val") and "int" in op["val"]:
+        return op["val"]["int"]
+    return None
+
+
+def position_tests(fn, is_index, is_length, transparent=()):
+    """Comparisons that decide, for the element at position `index` of a sequence of `length` elements under iteration
+    (0 <= index < length), whether further elements follow: any comparison of index + a with length + b (either side, any of
+    == != < <= > >=) whose truth value at the last position (index - length = -1) differs from its value at every earlier
+    position - `index + 1 < n`, `index + 1 == n`, `index != n - 1`, `n > index + 1`, `index < n - 1`, ...
+    Returns [(("cmp", bb, stmt index), follow_when_true)].  A comparison that is not exact (`index + 2 < n`, `index < n`)
+    is not a position test and is not returned."""
+    out = []
+    for blk in fn.blocks:
+        if blk.get("cleanup"):
+            continue
+        for i, st in enumerate(blk["st"]):
+            if st["s"] != "assign" or st["rv"]["rv"] != "binop" or st["rv"]["op"] not in _CMP:
+                continue
+            pa, ka = linear_form(fn, st["rv"]["a"], transparent)
+            pb, kb = linear_form(fn, st["rv"]["b"], transparent)
+            if pa is None or pb is None:
+                continue
+            if is_index(pa) and is_length(pb):
+                f = lambda d, ka=ka, kb=kb, o=st["rv"]["op"]: _CMP[o](d + ka, kb)
+            elif is_length(pa) and is_index(pb):
+                f = lambda d, ka=ka, kb=kb, o=st["rv"]["op"]: _CMP[o](ka, d + kb)
+            else:
+                continue
+            # d = index - length; the last element has d = -1, every earlier one d <= -2 (the forms are monotone or point tests in d,
+            # with offsets far smaller than the sample range)
+            earlier = set(f(d) for d in range(-2, -40, -1))
+            if len(earlier) == 1 and f(-1) not in earlier:
+                out.append((("cmp", blk["bb"], i), f(-2)))
+    return out
+
+
 def compatible(facts, cell):
     """A concrete cell {dim: value} is compatible with path facts {dim: frozenset} when no fact excludes it."""
     return all(dim not in facts or val in facts[dim] for dim, val in cell.items())
@@ -167,3 +248,184 @@ def compatible(facts, cell):
 def show_facts(facts):
     return "{%s}" % ", ".join("%s=%s" % (d if isinstance(d, str) else "/".join(str(x) for x in d[:2]), "|".join(sorted(str(v) for v in vs)))
                               for d, vs in sorted(facts.items(), key=lambda kv: repr(kv[0])))
+
+
+# ----------------------------------------------------------------------------- the per-method version-conflict test (rule C02.R4)
+# A copy of lib_c01._conflict_test / conflict_loop (lib_c01.py is shared and was frozen for this module while it was hardened) in
+# which the handler list may also be looked at through Vec::as_slice / as_mut_slice (the conflict loop extracted into a helper
+# taking `&[ApiEndpoint]`).  When lib_c01.ITER_ADAPT gains these two callees this copy can be replaced by the import again.
+# ways of looking at the handler list as the sequence of its elements (value-preserving for "which elements are visited")
+ITER_ADAPT = [r"iter::IntoIterator::into_iter$", r"slice::<impl \[T\]>::iter$", r"vec::Vec::<T, A>::iter$", r"vec::Vec::<T, A>::as_slice$", r"vec::Vec::<T, A>::as_mut_slice$"]
+
+
+SEARCH_ADAPTORS = r"iter::Iterator::(find|position|any|rposition|find_map)$|iter::DoubleEndedIterator::rfind$"
+
+
+def _conflict_test(facts, ins, vec):
+    """The test `some existing element of the handler list overlaps the new endpoint`, whatever the idiom.  Returns a dict
+    {idiom, site, elem_ok, new_ok, iter_ok, hit:(switch_bb,target) taken when an overlapping element was found, clear:(switch_bb,target) taken when
+     every element was tested and none overlapped, again: block of the loop head (loop idiom) or None, detail} or (None, reason).
+
+    loop   : for h in list { if h.versions.overlaps_with(&new.versions) { refuse } }            hit = true edge of the test, clear = None edge of next()
+    search : list.iter().find / position / rfind (|h| h.versions.overlaps_with(&new.versions))   hit = Some edge of the result, clear = its None edge
+             list.iter().any(|h| h.versions.overlaps_with(&new.versions))                        hit = true edge, clear = false edge
+    (std's find / position / any apply the predicate to every element in turn until it first holds)"""
+    sites = [(ins, bb, t) for bb, t in ins.live_calls(r"^api_description::ApiEndpointVersions::overlaps_with$")]
+    for h in facts.descendants(ins):
+        sites += [(h, bb, t) for bb, t in h.live_calls(r"^api_description::ApiEndpointVersions::overlaps_with$")]
+    if len(sites) != 1:
+        return None, "overlaps_with call sites in insert (and its closures): %d (want the one test applied to every existing handler)" % len(sites)
+    f, obb, ot = sites[0]
+    if f is ins:
+        pa = access_path(ins, ot["args"][0], VALUE_PRESERVING)
+        pb = access_path(ins, ot["args"][1], VALUE_PRESERVING)
+        elem, new = (pa, pb) if pa.is_call(r"iter::Iterator::next$") else (pb, pa)
+        res = {"idiom": "loop", "site": (ins, obb), "hit": None, "clear": None, "again": None}
+        res["new_ok"] = new.kind() == "param" and new.root[1] == 2 and new.path == ["versions"]
+        res["elem_ok"] = elem.is_call(r"iter::Iterator::next$") and elem.npath() == ["+", "0", "versions"]
+        res["iter_ok"] = False
+        ne = None
+        if res["elem_ok"]:
+            nbb, nt = elem.call()[1], elem.call()[2]
+            pit = access_path(ins, nt["args"][0], VALUE_PRESERVING + ITER_ADAPT)
+            res["iter_ok"] = pit.root[0] == vec.root[0] and pit.root_local() == vec.root_local() and pit.path == vec.path
+            ne = option_edges(ins, nt["dest"]["l"])
+            res["again"] = nbb
+            if ne is not None:
+                res["clear"] = (ne[0], ne[2])
+                res["elem_ok"] = res["elem_ok"] and ins.edge_dominates(ne[0], ne[1], obb)
+        sw = bool_switch_of_call(ins, obb, ot)
+        if sw is not None:
+            res["hit"] = (sw[0], sw[1])
+            res["miss"] = (sw[0], sw[2])
+        res["detail"] = "overlaps_with(%r, %r) inside a loop over the list" % (pa, pb)
+        return res, None
+    # the test lives in a closure: it must be the predicate of a short-circuit search over the list
+    if f.raw["kind"] != "Closure":
+        return None, "overlaps_with is called in %s" % f.id
+    pa = access_path(f, ot["args"][0], VALUE_PRESERVING)
+    pb = access_path(f, ot["args"][1], VALUE_PRESERVING)
+    elem, newop = (pa, ot["args"][1]) if (pa.kind() == "param" and pa.root[1] == 2) else (pb, ot["args"][0])
+    res = {"idiom": "search", "site": (f, obb), "hit": None, "clear": None, "again": None}
+    res["elem_ok"] = elem.kind() == "param" and elem.root[1] == 2 and elem.path == ["versions"] and not [c for c in elem.call_names() if not c.endswith("Deref::deref")]
+    g, new = resolve_path(facts, f, newop, VALUE_PRESERVING)
+    res["new_ok"] = g is ins and new.kind() == "param" and new.root[1] == 2 and new.path == ["versions"]
+    ret = access_path(f, {"l": 0, "p": []}, [])
+    returns_test = ret.call() is not None and ret.call()[2] is ot and not ret.path
+    users = []
+    for bb, t in ins.live_calls():
+        for h, _n in closure_args_of_call(ins, t):
+            if h is f:
+                users.append((bb, t))
+    res["iter_ok"] = False
+    res["detail"] = "overlaps_with(%r, %r) in a closure" % (pa, pb)
+    if len(users) != 1 or not returns_test:
+        res["detail"] += " that %s and is used by %d call(s)" % ("returns the test" if returns_test else "does NOT return the test itself", len(users))
+        res["elem_ok"] = False
+        return res, None
+    ubb, ut = users[0]
+    callee = ut.get("callee") or ""
+    if not re.search(SEARCH_ADAPTORS, callee) or callee.endswith("find_map"):
+        res["detail"] += " handed to %s, which is not a search over every element" % callee.split("::")[-1]
+        res["elem_ok"] = False
+        return res, None
+    pit = access_path(ins, ut["args"][0], VALUE_PRESERVING + ITER_ADAPT)
+    res["iter_ok"] = pit.root[0] == vec.root[0] and pit.root_local() == vec.root_local() and pit.path == vec.path and \
+        not [c for c in pit.call_names() if not re.search(r"Deref::deref$|DerefMut::deref_mut$|slice::<impl \[T\]>::iter$|iter::IntoIterator::into_iter$|vec::Vec::<T, A>::iter$|vec::Vec::<T, A>::as_(mut_)?slice$|Clone::clone$|AsRef::as_ref$|Borrow::borrow$", c)]
+    res["detail"] += " handed to %s over %r" % (callee.split("::")[-1], pit)
+    if callee.endswith("::any"):
+        sw = bool_switch_of_call(ins, ubb, ut)
+        if sw is not None:
+            res["hit"], res["clear"] = (sw[0], sw[1]), (sw[0], sw[2])
+    else:
+        for sbb, info, tg in enum_switches(ins, r"^std::option::Option$"):
+            q = access_path(ins, info["place"], VALUE_PRESERVING)
+            if q.call() and q.call()[2] is ut and not q.path:
+                res["hit"], res["clear"] = (sbb, ins.switch_target(sbb, 1)), (sbb, ins.switch_target(sbb, 0))
+        if res["hit"] is None:
+            for cbb, ct in ins.live_calls(r"Option::<T>::(is_some|is_none)$"):
+                q = access_path(ins, ct["args"][0], VALUE_PRESERVING)
+                if q.call() and q.call()[2] is ut and not q.path:
+                    sw = bool_switch_of_call(ins, cbb, ct)
+                    if sw is not None:
+                        some_t, none_t = (sw[1], sw[2]) if ct["callee"].endswith("is_some") else (sw[2], sw[1])
+                        res["hit"], res["clear"] = (sw[0], some_t), (sw[0], none_t)
+    return res, None
+
+
+def conflict_loop(facts, ins, which=None):
+    """Structure of the per-method version-conflict test of HttpRouter::insert, found by role.
+    Yields (key, ok, detail, site) checks; `which` selects a subset by key."""
+    out = []
+
+    def emit(key, ok, detail, site):
+        if which is None or key in which:
+            out.append((key, bool(ok), detail, site))
+
+    appends = []
+    for bb, t in ins.live_calls(r"vec::Vec::<T, A>::(push|insert|append|extend_from_slice|push_within_capacity)$|iter::Extend::extend$|collections::VecDeque"):
+        l = operand_local(t["args"][-1]) if t["args"] else None
+        if l is not None and "ApiEndpoint<" in ins.local_ty(l):
+            appends.append((bb, t))
+    pushes = [(bb, t) for bb, t in appends if t["callee"].endswith("Vec::<T, A>::push")]
+    emit("one-append", len(appends) == 1 and len(pushes) == 1, "calls adding an ApiEndpoint to a handler list in insert: %s"
+         % [t["callee"].split("::")[-1] for _, t in appends], ins)
+    if len(pushes) != 1:
+        return out
+    pbb, pt = pushes[0]
+    vec = access_path(ins, pt["args"][0], VALUE_PRESERVING)
+    # the vector is node.methods.entry(METHOD).or_default()
+    vs = ins.slice(pt["args"][0], stop_at_calls=r"BTreeMap::<K, V, A>::entry$")
+    ent = vs.calls(r"BTreeMap::<K, V, A>::entry$")
+    okv = False
+    pm = None
+    if len(ent) == 1:
+        pm = access_path(ins, ent[0][2]["args"][0], VALUE_PRESERVING)
+        okv = pm.path == ["methods"] and not callee_allow(vs, PLUMBING + [r"BTreeMap::<K, V, A>::entry$", r"btree_map::Entry::<'a, K, V, A>::or_default$",
+                                                                        r"btree_map::Entry::<'a, K, V, A>::or_insert_with$", r"btree_map::Entry::<'a, K, V, A>::or_insert$"])
+    emit("vector-is-node.methods[METHOD]", okv, "push receiver is %r obtained from entry(%r)" % (vec, pm), (ins, pbb))
+    pe = access_path(ins, pt["args"][1], [])
+    emit("appended-value-is-the-new-endpoint", pe.kind() == "param" and pe.root[1] == 2 and not pe.path, "pushed value is %r" % pe, (ins, pbb))
+    ct, why = _conflict_test(facts, ins, vec)
+    if ct is None:
+        emit("every-element-tested", False, why, ins)
+        return out
+    emit("every-element-tested", ct["new_ok"] and ct["elem_ok"] and ct["iter_ok"],
+         "%s: one side is each element of the vector that is pushed to (element: %s, that vector: %s), the other the new endpoint's versions (%s)"
+         % (ct["detail"], ct["elem_ok"], ct["iter_ok"], ct["new_ok"]), ct["site"])
+    if ct["hit"] is None or ct["clear"] is None:
+        emit("overlap-true-diverges", False, "no branch on the outcome of the overlap test (%s idiom)" % ct["idiom"], ct["site"])
+        return out
+    hsw, htgt = ct["hit"]
+    csw, ctgt = ct["clear"]
+    again = ct["again"]
+    true_div = ins.is_diverging(htgt) and (again is None or again not in ins.reachable(htgt)) and pbb not in ins.reachable(htgt)
+    emit("overlap-true-diverges", true_div, "the edge taken when an existing element overlaps %s (registration refused by panic)" % ("never returns" if true_div else "can continue to the push"), (ins, hsw))
+    if ct["idiom"] == "loop":
+        msw, mtgt = ct["miss"]
+        false_cont = again in ins.reachable(mtgt, avoid=[pbb]) and not dead_ends(ins, mtgt, avoid=[again])
+        emit("overlap-false-continues", false_cont, "the false edge goes on to the next element without any refusal in between: %s" % false_cont, (ins, msw))
+    else:
+        emit("overlap-false-continues", True, "short-circuit search (std find/position/any): the predicate is applied to each element in turn until it first holds", (ins, hsw))
+    emit("append-after-loop-exit", ins.edge_dominates(csw, ctgt, pbb), "push is dominated by the edge taken when all elements were tested and none overlapped: %s"
+         % ins.edge_dominates(csw, ctgt, pbb), (ins, pbb))
+    de = dead_ends(ins, ctgt)
+    rets = ins.returns()
+    emit("no-refusal-after-loop", not de and all(ins.dominates(pbb, r) or r not in ins.reachable(ctgt) for r in rets),
+         "from there every path reaches the push and returns (refusal sites after the test: %d)" % len(de), (ins, ctgt))
+    # nothing else touches the vector before the push
+    foreign = []
+    for bb, t in ins.live_calls():
+        if t is pt or not t["args"]:
+            continue
+        for a in t["args"]:
+            if a.get("k") not in ("copy", "move"):
+                continue
+            q = access_path(ins, a, VALUE_PRESERVING)
+            if q.root[0] == vec.root[0] and q.root_local() == vec.root_local() and q.path == vec.path and q.root[0] == "call":
+                c = t.get("callee") or ""
+                if not re.search(r"Deref::deref$|DerefMut::deref_mut$|slice::<impl \[T\]>::(iter|get|first|last|len|is_empty)$|iter::IntoIterator::into_iter$|"
+                                 r"vec::Vec::<T, A>::(iter|len|is_empty|as_slice)$|ops::Index::index$", c):
+                    foreign.append(c)
+    emit("vector-untouched-before-append", not foreign, "other operations on the handler list in insert: %s" % (foreign or "only iteration"), (ins, pbb))
+    return out
